@@ -469,8 +469,8 @@ func (x *Exec) fmtArg(verb byte, a value) []*Term {
 		}
 	}
 	// error values: call Error()
-	if iv.t != nil {
-		if m := x.P.prog.LookupMethod(iv.t, nil, "Error"); m != nil && (verb == 's' || verb == 'v') {
+	if iv.t != nil && (verb == 's' || verb == 'v') && x.P.prog.MethodSets.MethodSet(iv.t).Lookup(nil, "Error") != nil {
+		if m := x.P.prog.LookupMethod(iv.t, nil, "Error"); m != nil {
 			r := x.callSSA(nil, token.NoPos, m, []value{iv.v}, nil)
 			if s, ok := r.(strVal); ok {
 				return x.bytesOf(s)
